@@ -123,7 +123,7 @@ pub struct RunOut {
     pub stop_was_expected: bool,
 }
 
-pub trait ParserCase {
+pub trait ParserCase: Sync {
     fn id(&self) -> &'static str;
     fn layout(&self) -> &'static str;
     fn glr(&self) -> bool;
@@ -413,6 +413,32 @@ pub fn leaves<'i, I: Input + ?Sized, P, TK: Copy + Into<usize>>(node: &rustemo::
     out.extend(acc);
 }
 
+/// Inputs above this size are "long streams": the harness then avoids every
+/// recursive walk of its own (tree extraction from a forest, recursive drop
+/// glue of a deep result) so that only a recursion *inside parse* can exhaust
+/// the stack.
+pub const LONG_INPUT: usize = 8192;
+
+/// Dismantles a tree without recursion (the automatic drop glue of a deep,
+/// left-nested tree recurses once per level; that happens in the user's code
+/// after `parse` returned and is not what C15 is about).
+pub fn drop_tree<'i, I: Input + ?Sized, P, TK>(node: rustemo::TreeNode<'i, I, P, TK>) {
+    let mut stack = vec![node];
+    while let Some(n) = stack.pop() {
+        if let rustemo::TreeNode::NonTermNode { children, .. } = n {
+            stack.extend(children);
+        }
+    }
+}
+
+/// The parser value of a single `run` is leaked, not dropped: after an error
+/// the builder inside an `LRParser` still holds deep partial trees, and their
+/// recursive drop glue runs in the user's code, not in `parse`.  (Runs happen
+/// in short-lived forked children.)
+pub fn leak_parser<'a, T: 'a>(p: T) -> &'a mut T {
+    Box::leak(Box::new(p))
+}
+
 // ---- driver macros ------------------------------------------------------------
 
 #[macro_export]
@@ -446,20 +472,22 @@ macro_rules! lr_case {
                         inner: rustemo::StringLexer::<g::Context<'_, str>, _, _, _, _>::new($skip_ws, &g::RECOGNIZERS),
                         all: g::ALL_TOKEN_KINDS,
                     };
-                    let mut parser = rustemo::LRParser::new(&DEF, g::State::default(), $partial, $has_layout, lexer, rustemo::TreeBuilder::new());
+                    let parser = leak_parser(rustemo::LRParser::new(&DEF, g::State::default(), $partial, $has_layout, lexer, rustemo::TreeBuilder::new()));
                     use rustemo::Parser as _;
                     let res = match &via_file {
                         Some(p) => parser.parse_file(p),
                         None => parser.parse(text.unwrap()),
                     };
-                    match res {
+                    let out = match res {
                         Ok(tree) => {
                             let mut l = vec![];
                             leaves(&tree, &mut l);
+                            drop_tree(tree);
                             Out::Ok { leaves: l, solutions: 1 }
                         }
                         Err(e) => error_to_out(e),
-                    }
+                    };
+                    out
                 }));
                 finish_run(r)
             }
@@ -485,6 +513,7 @@ macro_rules! lr_case {
                         Ok(tree) => {
                             let mut l = vec![];
                             leaves(&tree, &mut l);
+                            drop_tree(tree);
                             Out::Ok { leaves: l, solutions: 1 }
                         }
                         Err(e) => error_to_out(e),
@@ -527,16 +556,19 @@ macro_rules! lr_def_case {
                         inner: rustemo::StringLexer::<g::Context<'_, str>, _, _, _, _>::new($skip_ws, &g::RECOGNIZERS),
                         all: g::ALL_TOKEN_KINDS,
                     };
-                    let mut parser = rustemo::LRParser::new(&DEF, g::State::default(), $partial, $has_layout, lexer, g::DefaultBuilder::new());
+                    let parser = leak_parser(rustemo::LRParser::new(&DEF, g::State::default(), $partial, $has_layout, lexer, g::DefaultBuilder::new()));
                     use rustemo::Parser as _;
                     let res = match &via_file {
-                        Some(p) => parser.parse_file(p).map(|_| ()),
-                        None => parser.parse(text.unwrap()).map(|_| ()),
+                        // the AST is forgotten, not dropped: drop glue of a deep
+                        // generated AST recurses in the user's code, after parse
+                        Some(p) => parser.parse_file(p).map(std::mem::forget),
+                        None => parser.parse(text.unwrap()).map(std::mem::forget),
                     };
-                    match res {
+                    let out = match res {
                         Ok(()) => Out::Ok { leaves: vec![], solutions: 1 },
                         Err(e) => error_to_out(e),
-                    }
+                    };
+                    out
                 }));
                 finish_run(r)
             }
@@ -559,7 +591,10 @@ macro_rules! lr_def_case {
                         }
                     };
                     let r = std::panic::catch_unwind(std::panic::AssertUnwindSafe(|| match parser.parse(t) {
-                        Ok(_) => Out::Ok { leaves: vec![], solutions: 1 },
+                        Ok(ast) => {
+                            std::mem::forget(ast);
+                            Out::Ok { leaves: vec![], solutions: 1 }
+                        }
                         Err(e) => error_to_out(e),
                     }));
                     outs.push(finish_run(r));
@@ -617,6 +652,11 @@ macro_rules! glr_case {
                             if $cyclic {
                                 return Out::Ok { leaves: vec![], solutions: 0 };
                             }
+                            if input.len() > LONG_INPUT {
+                                // no recursive walk / drop of a deep forest in the harness
+                                std::mem::forget(forest);
+                                return Out::Ok { leaves: vec![], solutions: 0 };
+                            }
                             // Extracting a tree is post-processing outside
                             // "calling parse" (counting solutions of a large
                             // forest may overflow): failures here are ignored.
@@ -661,6 +701,10 @@ macro_rules! glr_case {
                     let r = std::panic::catch_unwind(std::panic::AssertUnwindSafe(|| match parser.parse(t) {
                         Ok(forest) => {
                             if $cyclic {
+                                return Out::Ok { leaves: vec![], solutions: 0 };
+                            }
+                            if t.len() > LONG_INPUT {
+                                std::mem::forget(forest);
                                 return Out::Ok { leaves: vec![], solutions: 0 };
                             }
                             let l = std::panic::catch_unwind(std::panic::AssertUnwindSafe(|| {
@@ -708,20 +752,22 @@ macro_rules! lr_bytes_case {
                 let via_file = cfg.via_file.clone();
                 let r = std::panic::catch_unwind(std::panic::AssertUnwindSafe(|| {
                     let lexer = FaultLexer { inner: g::user_lexer::$lexer::new(), all: g::ALL_TOKEN_KINDS };
-                    let mut parser = rustemo::LRParser::new(&DEF, g::State::default(), false, false, lexer, rustemo::TreeBuilder::new());
+                    let parser = leak_parser(rustemo::LRParser::new(&DEF, g::State::default(), false, false, lexer, rustemo::TreeBuilder::new()));
                     use rustemo::Parser as _;
                     let res = match &via_file {
                         Some(p) => parser.parse_file(p),
                         None => parser.parse(input),
                     };
-                    match res {
+                    let out = match res {
                         Ok(tree) => {
                             let mut l = vec![];
                             leaves(&tree, &mut l);
+                            drop_tree(tree);
                             Out::Ok { leaves: l, solutions: 1 }
                         }
                         Err(e) => error_to_out(e),
-                    }
+                    };
+                    out
                 }));
                 finish_run(r)
             }
